@@ -41,16 +41,29 @@ func (o c19Op) String() string { return string(o.Kind) + "(" + o.Key + ")" }
 
 // ---- retained-message store -------------------------------------------------
 
-type c19Topics struct{ s topics.Store }
+type c19Topics struct {
+	s       topics.Store
+	scratch []byte
+}
+
+// key hands the store a key in a buffer that the caller reuses for the next call (and scribbles
+// over in between): a store must not keep references into its arguments.
+func c19Key(scratch *[]byte, key string) []byte {
+	for i := range *scratch {
+		(*scratch)[i] = '~'
+	}
+	*scratch = append((*scratch)[:0], key...)
+	return *scratch
+}
 
 func (t *c19Topics) apply(op c19Op, step int) {
 	switch op.Kind {
 	case 'i':
-		t.s.Insert([]byte(op.Key), []byte(fmt.Sprintf("%s=%d", op.Key, step)))
+		t.s.Insert(c19Key(&t.scratch, op.Key), []byte(fmt.Sprintf("%s=%d", op.Key, step)))
 	case 'r':
-		t.s.Remove([]byte(op.Key))
+		t.s.Remove(c19Key(&t.scratch, op.Key))
 	case 'e':
-		t.s.Insert([]byte(op.Key), []byte{}) // a zero-length (non-nil) value: "no value" by the stores' own convention
+		t.s.Insert(c19Key(&t.scratch, op.Key), []byte{}) // a zero-length (non-nil) value: "no value" by the stores' own convention
 	}
 }
 func (t *c19Topics) query(key string) [][]byte {
@@ -73,28 +86,31 @@ func (t *c19Topics) reload() (c19Store, error) {
 	if err := n.Load(buf); err != nil {
 		return nil, err
 	}
-	return &c19Topics{n}, nil
+	return &c19Topics{s: n}, nil
 }
 
 // ---- subscription index -----------------------------------------------------
 
-type c19Subs struct{ s subscriptions.Tree }
+type c19Subs struct {
+	s       subscriptions.Tree
+	scratch []byte
+}
 
 func (t *c19Subs) apply(op c19Op, step int) {
 	switch op.Kind {
 	case 's':
-		t.s.Upsert([]byte(op.Key), func([]byte) []byte { return []byte(fmt.Sprintf("%s=%d", op.Key, step)) })
+		t.s.Upsert(c19Key(&t.scratch, op.Key), func([]byte) []byte { return []byte(fmt.Sprintf("%s=%d", op.Key, step)) })
 	case 'a':
-		t.s.Upsert([]byte(op.Key), func(old []byte) []byte {
+		t.s.Upsert(c19Key(&t.scratch, op.Key), func(old []byte) []byte {
 			if len(old) == 0 {
 				return []byte(fmt.Sprintf("%s=%d", op.Key, step))
 			}
 			return append(append([]byte{}, old...), []byte(fmt.Sprintf("+%d", step))...)
 		})
 	case 'c':
-		t.s.Upsert([]byte(op.Key), func([]byte) []byte { return nil })
+		t.s.Upsert(c19Key(&t.scratch, op.Key), func([]byte) []byte { return nil })
 	case 'z':
-		t.s.Upsert([]byte(op.Key), func([]byte) []byte { return []byte{} })
+		t.s.Upsert(c19Key(&t.scratch, op.Key), func([]byte) []byte { return []byte{} })
 	}
 }
 func (t *c19Subs) query(key string) [][]byte {
@@ -121,7 +137,7 @@ func (t *c19Subs) reload() (c19Store, error) {
 	if err := n.Load(buf); err != nil {
 		return nil, err
 	}
-	return &c19Subs{n}, nil
+	return &c19Subs{s: n}, nil
 }
 
 // ---- model -------------------------------------------------------------------
@@ -276,7 +292,7 @@ func c19HasEmptyLevel(ops []c19Op) bool {
 }
 
 func runC19(c *fw.Ctx) {
-	c.Rule = "every history of <=L operations over the key set {a, a/b, a/b/c, a/c, b} (L=4 quick; 6 retained store / 5 subscription index thorough) x every position of a Dump->Load round trip into a fresh store (and none), enumerated completely; plus seeded histories of 8-20 operations over key sets with empty levels (a, a/, a//b, /a) and, for the subscription index, wildcard filters (a/+, a/#) checked through Iterate, and histories that also store zero-length (non-nil) values, which both stores treat as 'no value' (point queries, Iterate and Count must agree on that); after the history every key is point-queried (Match/Walk), Iterate and Count are compared with map[string][]byte. distinct = (store, history, dump position); non-trivial = the history touches >=2 different keys or re-touches a key, i.e. length >=2"
+	c.Rule = "every history of <=L operations over the key set {a, a/b, a/b/c, a/c, b} (L=4 quick; 6 retained store / 5 subscription index thorough) x every position of a Dump->Load round trip into a fresh store (and none), enumerated completely; plus seeded histories of 8-20 operations over key sets with empty levels (a, a/, a//b, /a) and, for the subscription index, wildcard filters (a/+, a/#) checked through Iterate, and histories that also store zero-length (non-nil) values, which both stores treat as 'no value' (point queries, Iterate and Count must agree on that); keys are handed over in a buffer the caller reuses and overwrites between calls; after the history every key is point-queried (Match/Walk), Iterate and Count are compared with map[string][]byte. distinct = (store, history, dump position); non-trivial = the history touches >=2 different keys or re-touches a key, i.e. length >=2"
 	c.Assume("values are opaque non-empty byte strings; an empty value means 'absent' in both stores by design")
 	c.Assume("the Insert return flag and Remove's error value are not compared (they feed statistics only)")
 	keys := []string{"a", "a/b", "a/b/c", "a/c", "b"}
@@ -287,8 +303,8 @@ func runC19(c *fw.Ctx) {
 		maxL  int
 	}
 	kinds := []storeKind{
-		{"topics", func() c19Store { return &c19Topics{topics.NewTree()} }, []byte{'i', 'r'}, c.Pick(4, 6)},
-		{"subscriptions", func() c19Store { return &c19Subs{subscriptions.NewTree()} }, []byte{'s', 'a', 'c'}, c.Pick(4, 5)},
+		{"topics", func() c19Store { return &c19Topics{s: topics.NewTree()} }, []byte{'i', 'r'}, c.Pick(4, 6)},
+		{"subscriptions", func() c19Store { return &c19Subs{s: subscriptions.NewTree()} }, []byte{'s', 'a', 'c'}, c.Pick(4, 5)},
 	}
 	workers := runtime.NumCPU()
 	start := time.Now()
